@@ -460,6 +460,7 @@ class Filterbank(ABC):
                     "nchans": 1,
                     "nsamples": tim_len,
                     "tstart": self.header.mjd_after_nsamps(start),
+                    "fch1": self.header.fch1 + ichan * self.header.foff,
                 },
             ),
         )
@@ -765,11 +766,12 @@ class Filterbank(ABC):
                                 "nbits": 32,
                                 "data_type": "time series",
                                 "tstart": self.header.mjd_after_nsamps(start),
+                                "fch1": self.header.fch1 + int(chan) * self.header.foff,
                             },
                             nbits=32,
                         ),
                     )
-                    for filename in batch_files
+                    for filename, chan in zip(batch_files, batch_chans, strict=True)
                 ]
                 for nsamps_r, _, data in self.read_plan(
                     gulp=gulp,
